@@ -305,7 +305,20 @@ def step (st : St) (line : String) : St × String :=
           (if sp.lingering && head ≠ "poll" then none
            else some "a window is reported although it was revoked, never opened, or expired and polled")
         else none
-      let ora : Option String := c1 <|> c2 <|> c3 <|> c4 <|> c5
+      -- (6) only failed proofs count towards the revocation: a request that is turned away with `Busy`
+      --     (no free session slot / another handshake in progress) is no proof - the counter stays, the window stays
+      let c6 : Option String :=
+        if reply = "status:4" then
+          match sp.win with
+          | some (_, _, f) =>
+            if implW then
+              match implF with
+              | some f' => if f' = f then none else some s!"a request answered Busy moved the failure counter ({f} -> {f'})"
+              | none => none
+            else some "a request answered Busy revoked the commissioning window"
+          | none => none
+        else none
+      let ora : Option String := c1 <|> c2 <|> c3 <|> c4 <|> c5 <|> c6
       let sp := { sp with lingering := sp.lingering && implW }
       let sp := { sp with sessions := implS,
                           win := if implW then (match sp.win, implF with
